@@ -59,6 +59,13 @@ Fixpoint has_pe (s : sel) : bool :=
   | Sel rel c => existsb p_is_element (c_ps c) || match rel with Some (_, r) => has_pe r | None => false end
   end.
 
+(* only descendant and child combinators *)
+Fixpoint ap_only (s : sel) : bool :=
+  match s with
+  | Sel None _ => true
+  | Sel (Some (k, r)) _ => match k with Ancestor | Parent => ap_only r | _ => false end
+  end.
+
 Definition fmt_opt (o : option sels) : option text :=
   match o with Some s => Some (fmt_sels false s) | None => None end.
 
@@ -100,10 +107,11 @@ Definition clause (c : case) : bool :=
       match c_t1 c with
       | None => negb (N.eqb (c_st1 c) 2)
       | Some _ =>
-          (* judged only where the implementation's is-superselector is a complete test: operands without
-             combinators and without pseudo-elements (with combinators it misses e.g. `a > c` >= `a > b + c`) *)
+          (* judged where the implementation's is-superselector is a complete test: operands whose combinators are
+             descendant / child only and that carry no pseudo-element (with sibling combinators it misses e.g.
+             `a > c` >= `a > b + c`; `.c` is rightly no superselector of `.c::after`) *)
           existsb has_pe (c_a c) || existsb has_pe (c_b c)
-          || existsb is_complex (c_a c) || existsb is_complex (c_b c)
+          || negb (forallb ap_only (c_a c)) || negb (forallb ap_only (c_b c))
           || (N.eqb (c_f1 c) 1 && N.eqb (c_f2 c) 1)
       end
   | 3%N =>
